@@ -53,29 +53,53 @@ def make_obligations(prop):
         ctx.extra_coverage["mutants_run"] = n
 
     def benign(ctx, res):
+        """the behaviour-preserving edits that touch a file this property is anchored in (or were written for it) are applied one by one to a
+        scratch copy; the check must stay silent.  (selftest/run_benign.py runs every edit against every property.)"""
+        from concurrent.futures import ThreadPoolExecutor
         bdir = os.path.join(VERIF, "selftest", "benign")
         meta = json.load(open(os.path.join(bdir, "meta.json")))
-        n = 0
-        for name in sorted(meta):
+        anchors = set()
+        for l in open(os.path.join(VERIF, "properties.jsonl")):
+            d_ = json.loads(l)
+            if d_["id"] == prop:
+                anchors = set(d_.get("anchors", {}).get("files", []))
+
+        def relevant(name):
+            if ("-%s-" % prop) in name:
+                return True
+            try:
+                files = set(re.findall(r"^\+\+\+ b/(\S+)", open(os.path.join(bdir, name + ".patch")).read(), re.M))
+            except OSError:
+                return False
+            return bool(files & anchors)
+
+        def one(name):
             d = _scratch(ctx.repo)
             out = tempfile.mkdtemp(prefix="btverif-out-")
             try:
                 r = subprocess.run(["git", "apply", "--whitespace=nowarn", os.path.join(bdir, name + ".patch")], cwd=d, capture_output=True, text=True)
                 if r.returncode != 0:
+                    return name, None, None, None
+                rc, fired, stdout = _run_check(prop, d, out)
+                return name, rc, fired, stdout
+            finally:
+                shutil.rmtree(d, ignore_errors=True)
+                shutil.rmtree(out, ignore_errors=True)
+        names = [n_ for n_ in sorted(meta) if relevant(n_)]
+        n = 0
+        with ThreadPoolExecutor(8) as ex:
+            for name, rc, fired, stdout in ex.map(one, names):
+                if rc is None:
                     continue
                 n += 1
-                rc, fired, stdout = _run_check(prop, d, out)
                 if rc != 0:
                     first = re.findall(r"^\s+-> (.*)$", stdout, re.M)
                     res.fail("benign/%s" % name, "selftest/benign/%s.patch" % name, "CHECK BROKEN (false alarm): behaviour-preserving edit `%s` makes %s fire: %s" % (
                         meta[name], sorted(fired), first[0][:200] if first else ""))
                 else:
-                    res.ok("selftest/benign/%s.patch" % name, "silent on: %s" % meta[name])
-            finally:
-                shutil.rmtree(d, ignore_errors=True)
-                shutil.rmtree(out, ignore_errors=True)
+                    res.ok("selftest/benign/%s.patch" % name, "silent on: %s" % (meta[name] if isinstance(meta[name], str) else meta[name].get("what", "")))
         ctx.extra_coverage["benign_edits_run"] = n
     return [
         Ob("SELF-MUT", "self-validation", "every mutant / confirmed seeded change tagged with this property is reported by the expected obligation", mutants, floor=0, tier="thorough"),
-        Ob("SELF-BENIGN", "self-validation", "no behaviour-preserving edit of the benign corpus makes this check fire", benign, floor=10, tier="thorough"),
+        Ob("SELF-BENIGN", "self-validation", "no behaviour-preserving edit of the benign corpus (those touching this property's anchored files) makes this check fire", benign, floor=5, tier="thorough"),
     ]
